@@ -22,7 +22,7 @@ def check(ctx, rep):
         for a, b in (V.LIST2[3], V.LIST2[6]):
             wa = ({"major": 0, "minor": 0, "patch": 0}, a, ())
             wb = ({"major": 0, "minor": 0, "patch": 0}, b, ())
-            if V.run2(prog, key, wa, wb)[0] == "inconclusive":
+            if V.run2(prog, key, wa, wb, retry_structured=False)[0] == "inconclusive":
                 structured.add(key)
     for key in sorted(structured):
         rep.analysed_item("%s walks the identifier lists: checked on structured lists (%d list pairs)" % (key, len(V.LISTS_S) ** 2))
@@ -37,7 +37,7 @@ def check(ctx, rep):
         for key, rule in ((CMP, "T-CMP-V"), (PCMP, "T-PCMP-V"), (EQ, "T-EQ-V")):
             if (key in structured) != struct:
                 continue
-            st, r, it = V.run2(prog, key, a, b, structured=struct)
+            st, r, it = V.run2(prog, key, a, b, structured=struct, retry_structured=False)
             rep.path((rule, path_sig(it)))
             if st == "inconclusive":
                 rep.inconc("%s: %s" % (rule, r.reason), r.where)
@@ -150,13 +150,23 @@ def identifier(ctx, rep, prog):
 
 def classification(ctx, rep, prog):
     """identifier::{closure#1}: digits that fit u64 become Numeric, everything else AlphaNumeric(text)"""
-    key = "identifier::{closure#1}"
     rep.rule("T-CLASSIFY", 2, "identifier text that parses as u64 becomes Numeric(n), anything else AlphaNumeric(text)")
-    if not prog.has_body(key):
-        # the classification may have been reorganised; find the closure that calls str::parse inside `identifier`
-        cands = [k for k in prog.bodies if k.startswith("identifier::{closure")]
-        rep.inconc("T-CLASSIFY: closure %s not found (candidates %s)" % (key, cands))
+    # the classification is the function mapped over the identifier text in the extracted grammar of `identifier`
+    from .. import gram
+    from ..interp import FnV
+    g, _ = gram.extract(prog)
+    p = g.get("identifier")
+    while p is not None and p.kind in ("context", "take", "cut_err"):
+        p = p.args[0]
+    fn = p.extra if (p is not None and p.kind == "map") else None
+    if isinstance(fn, Clo):
+        key = fn.key
+    elif isinstance(fn, FnV) and prog.has_body(fn.key()):
+        key = fn.key()
+    else:
+        rep.inconc("T-CLASSIFY: identifier() is not `<text parser>.map(<classification>)` in the extracted grammar (%r)" % (g.get("identifier"),))
         return
+    is_closure = isinstance(fn, Clo)
     ID = "Identifier"
     names = [v["name"] for v in prog.adts[ID]["variants"]]
     # the parsed value may be compared with literals (a numeric cutoff): the literals met are logged and the table is
@@ -181,7 +191,7 @@ def classification(ctx, rep, prog):
         pol.str_parse = str_parse
         it = Interp(prog, pol)
         try:
-            r = it.call_closure(Clo(key, ()), [Ptr(Cell(text))])
+            r = it.call_closure(fn, [Ptr(Cell(text))]) if is_closure else it.call_key(key, [Ptr(Cell(text))])
         except Inconclusive as e:
             rep.inconc("T-CLASSIFY: " + e.reason, e.where)
             continue
@@ -205,4 +215,4 @@ def classification(ctx, rep, prog):
             rep.fail("T-CLASSIFY", "%s|T-CLASSIFY|parse=%s" % (key, outcome),
                      "classification of %s returned %r (parse type %s)" % (
                          "text that does not parse" if outcome == "err" else "the number %d" % value, r, seen.get("ty")))
-    rep.analysed_item("identifier::{closure#1} interpreted with str::parse stubbed to Ok(n) / Err")
+    rep.analysed_item("%s (the map function of identifier()) interpreted with str::parse stubbed to Ok(n) / Err" % key)
